@@ -234,7 +234,11 @@ def wellformed(snap, allow_unreachable=()) -> list[str]:
             if ida != uid:
                 p.append(f"{cont}/{uid}: ID attribute is {ida!r}")
             t = node["type"]
-            if t is None:
+            if (cont, uid) in allow_unreachable:
+                # a node already reported as unreachable (recorded finding) is outside the tree a reader sees;
+                # its Type link dangles once the last live user of the type is collected
+                pass
+            elif t is None:
                 p.append(f"{cont}/{uid}: no Type link")
             elif not t["same"]:
                 p.append(f"{cont}/{uid}: Type is not the same HDF5 object as a node under Types")
@@ -244,6 +248,8 @@ def wellformed(snap, allow_unreachable=()) -> list[str]:
                 p.append(f"{cont}/{uid}: type node stored under {t['owners']} has ID {t['id']}")
             for lc, kids in node["links"].items():
                 for cu, info in kids.items():
+                    if (cont, uid) in allow_unreachable:
+                        continue   # links inside a node already reported as unreachable
                     if not info["same"]:
                         p.append(f"{cont}/{uid}/{lc}/{cu}: not a hard link to the flat node {lc}/{cu} (target {info['target']})")
                     else:
